@@ -37,6 +37,36 @@ func DomEdges(b *ssa.BasicBlock) []CondEdge {
 	return out
 }
 
+// AllPathsPass: every path from the function entry to block b takes a conditional edge for which
+// pred holds. It generalises "some dominating edge satisfies pred" to conditions that were merged
+// (`if a && b`), split, or turned into a switch.
+func AllPathsPass(b *ssa.BasicBlock, pred func(e CondEdge) bool) bool {
+	fn := b.Parent()
+	if len(fn.Blocks) == 0 || fn.Blocks[0] == b {
+		return false
+	}
+	seen := map[*ssa.BasicBlock]bool{fn.Blocks[0]: true}
+	stack := []*ssa.BasicBlock{fn.Blocks[0]}
+	for len(stack) > 0 {
+		x := stack[len(stack)-1]
+		stack = stack[:len(stack)-1]
+		_, isIf := x.Instrs[len(x.Instrs)-1].(*ssa.If)
+		for i, s := range x.Succs {
+			if isIf && len(x.Succs) == 2 && pred(CondEdge{x, i}) {
+				continue
+			}
+			if s == b {
+				return false
+			}
+			if !seen[s] {
+				seen[s] = true
+				stack = append(stack, s)
+			}
+		}
+	}
+	return true
+}
+
 // InstrDomEdges: like DomEdges for the block of an instruction.
 func InstrDomEdges(in ssa.Instruction) []CondEdge { return DomEdges(in.Block()) }
 
